@@ -414,6 +414,105 @@ def clash_case(k, acc: Acc):
                                     what=f"{new[ln].strip()!r}: expected {sorted(want)}, got {sorted(labels)}"))
 
 
+CONSTRUCTS_USER = """module zqu
+  use zqmod
+  implicit none
+  type :: zqt_deep
+    type(zqt_ext) :: zqd_ext
+  end type zqt_deep
+contains
+  function zqf_here(zqa_x) result(zqr_res)
+    integer :: zqa_x, zqr_res
+    type(zqt_deep) :: zqo_deep
+    type(zqt_deep) :: zqo_arr(3)
+    integer :: zql_before
+    zql_before = 1
+    block
+      integer :: zqk_inblock
+      zql_before = 2
+    end block
+    associate (zqs_assoc => zqo_deep%zqd_ext)
+      zql_before = 3
+    end associate
+    zql_before = 4
+  end function zqf_here
+end module zqu
+"""
+_CF = {"zqa_x": "var", "zqr_res": "var", "zqo_deep": "var", "zqo_arr": "var", "zql_before": "var", "zqf_here": "fun", "zqt_deep": "type"}
+_EXT = {"zqb_bind", "zqc_one", "zqc_three", "zqc_two", "zqn_nested"}
+# (line index of the statement that is replaced, text before the cursor, extra names visible there, member set or None)
+_CL = CONSTRUCTS_USER.split("\n")
+_L1, _L2, _L3, _L4 = (_CL.index(x) for x in ("    zql_before = 1", "      zql_before = 2", "      zql_before = 3", "    zql_before = 4"))
+CONSTRUCT_PROBES = [
+    (_L2, "      zql_before = ", {"zqk_inblock"}, None),
+    (_L2, "      if (zql_before > ", {"zqk_inblock"}, None),
+    (_L3, "      zql_before = ", {"zqs_assoc"}, None),
+    (_L3, "      zql_before = zqs_assoc%", set(), _EXT),
+    (_L3, "      zql_before = zqs_assoc%zqn_nested%", set(), {"zqc_leaf"}),
+    (_L4, "    zql_before = ", set(), None),
+    (_L1, "    zql_before = ", set(), None),
+    (_L4, "    zql_before = zqo_deep%zqd_ext%zqn_nested%", set(), {"zqc_leaf"}),
+    (_L4, "    zql_before = zqo_arr(2)%zqd_ext%", set(), _EXT),
+    (_L4, "    zql_before = zqo_arr(zqa_x)%", set(), {"zqd_ext"}),
+    (_L4, "    zqr_res = zqo_deep % zqd_ext % ", set(), _EXT),
+    (_L4, "    do zql_before = 1, ", set(), None),
+    (_L4, "    if (", set(), None),
+    (_L4, "    print *, ", set(), None),
+    (_L4, "    zql_before = zqa_x + zqf_fun(", set(), None),
+    (_L4, "    zql_before = zqo_arr(", set(), None),
+]
+
+
+def constructs_case(k, acc: Acc):
+    """Names that exist only inside a construct (BLOCK locals, ASSOCIATE names) are offered there and nowhere else;
+    member chains of depth 3, through array elements and with blanks around '%'; statement kinds other than assignment."""
+    ln, before, extra, members = CONSTRUCT_PROBES[k]
+    sc = worker_scratch("c12")
+    sc.wipe()
+    root = os.path.realpath(os.path.join(sc.path, "w"))
+    os.makedirs(root)
+    files = {"zqmod.f90": LIB, "zquser.f90": CONSTRUCTS_USER}
+    for n, t in files.items():
+        with open(os.path.join(root, n), "w") as f:
+            f.write(t)
+    s = Server([])
+    s.initialize(root)
+    path = os.path.join(root, "zquser.f90")
+    s.open(path)
+    lines = CONSTRUCTS_USER.split("\n")
+    if members is None:
+        names = dict(_CF)
+        names.update({n: "var" for n in extra})
+        names.update({n: ("var" if n in LIB_VARS else "type" if n in LIB_TYPES else "sub" if n in LIB_SUBS else "fun" if n in LIB_FUNS else "gen") for n in LIB_PUBLIC})
+        req_all = {n for n, c in names.items() if c != "sub"}
+        opt_all = {n for n, c in names.items() if c == "sub"} | {"zqu"}
+    else:
+        req_all, opt_all = set(members), set()
+    prefixes = {"zq"}
+    for n in req_all | opt_all | {"zqk_inblock", "zqs_assoc"}:
+        for j in range(3, len(n) + 1):
+            prefixes.add(n[:j])
+    for pref in sorted(prefixes):
+        for typed in (pref, pref.upper()):
+            new = list(lines)
+            new[ln] = before + typed
+            s.change(path, [{"text": "\n".join(new)}])
+            r = s.result("textDocument/completion", Server.tdpp(path, ln, len(new[ln])))
+            labels = {c["label"].lower() for c in r} if isinstance(r, list) else set()
+            mine = {l for l in labels if l.startswith("zq")}
+            req = {n for n in req_all if n.startswith(pref)}
+            opt = {n for n in opt_all if n.startswith(pref)}
+            acc.case(nontrivial_key=("constructs", k, typed) if req else None, outcome=("constructs", len(req)))
+            acc.count("completions")
+            tags = {"family": "completion", "context": "constructs", "access": "direct", "scope": "function", "upper": typed != pref}
+            case = {"probe": k, "typed": typed, "context": "constructs", "line": new[ln]}
+            if isinstance(r, tuple):
+                acc.violation(Violation("completion", {**tags, "obs": "error", "class": ""}, case, sorted(req), r, what=f"{new[ln].strip()!r}: {r}"))
+            elif (req - mine) or (mine - req - opt):
+                acc.violation(Violation("completion", {**tags, "obs": "missing" if req - mine else "extra", "class": "construct"}, case, sorted(req), sorted(mine),
+                                        what=f"{new[ln].strip()!r}: missing {sorted(req - mine)}, not accessible there {sorted(mine - req - opt)}"))
+
+
 SUBORDER = {
     "zqsub_a_impl.f90": "submodule (zqsub_par) zqsub_impl\n  implicit none\ncontains\n  module procedure zqs_proc\n    integer :: zql_local\n    zql_local = zq\n  end procedure zqs_proc\n"
                         "  module procedure zqf_res\n    zqr_out = zq\n  end procedure zqf_res\nend submodule zqsub_impl\n",
@@ -478,12 +577,17 @@ def main(ctx):
     acc.merge(kacc)
     oacc = core.pmap(suborder_case, [tuple(sorted(SUBORDER)), tuple(sorted(SUBORDER, reverse=True))], chunk=1, budget_s=120, label="C12/suborder")
     acc.merge(oacc)
+    nacc = core.pmap(constructs_case, list(range(len(CONSTRUCT_PROBES))), chunk=1, budget_s=120, label="C12/constructs")
+    acc.merge(nacc)
     ctx.add_family("completion", acc)
 
 
 def replay(rec):
     c = rec["case"]
     acc = Acc()
+    if c.get("context") == "constructs":
+        constructs_case(c["probe"], acc)
+        return [v.to_json("C12") for v in acc.violations if v.case["typed"] == c["typed"]] or None
     if c.get("context") == "member_chain3":
         chain_case(tuple(c["order"]), acc)
         return [v.to_json("C12") for v in acc.violations if v.case["typed"] == c["typed"]] or None
